@@ -75,3 +75,588 @@ theorem flatMap_eq_single {β : Type} [DecidableEq β] (l : List β) (a : β) (f
 
 end congr
 end TenpyModel.Ops
+
+namespace TenpyModel.Ops
+section spec
+variable {α : Type} [Semiring α]
+
+/-- strings of the couplings of a block that end at sites `≥ k`, read from site `k` on, for a chain that
+is already inside the block (`i < k`): `str^(j-k) ⊗ op_j ⊗ Id^(L-j-1)` -/
+def Block.tail (b : Block α) (L k : Nat) : Sym α :=
+  b.d2.flatMap (fun p => if (k : Int) ≤ p.1 then
+    p.2.map (fun q => (List.replicate (p.1.toNat - k) b.str ++ q.1 :: idStr (L - p.1.toNat - 1), q.2)) else [])
+
+/-- all couplings of a block that starts at a site `≥ k`, read from site `k` on -/
+def Block.termsFrom (b : Block α) (L k : Nat) : Sym α :=
+  if (k : Int) ≤ b.i then
+    b.d2.flatMap (fun p => p.2.map (fun q =>
+      (idStr (b.i.toNat - k) ++ b.opi :: (List.replicate (p.1.toNat - b.i.toNat - 1) b.str
+        ++ q.1 :: idStr (L - p.1.toNat - 1)), q.2)))
+  else []
+
+def blocksFrom (ct : CouplingTerms α) (L k : Nat) : Sym α := ct.blocks.flatMap (fun b => b.termsFrom L k)
+
+/-- onsite terms on sites `≥ k`, read from site `k` on -/
+def onsiteFrom (ot : OnsiteTerms α) (L k : Nat) : Sym α :=
+  (List.range' k (L - k)).flatMap (fun i =>
+    (ot.terms.getD i []).map (fun q => (idStr (i - k) ++ q.1 :: idStr (L - i - 1), q.2)))
+
+structure GraphHyp (ot : OnsiteTerms α) (ct : CouplingTerms α) (L : Nat) : Prop where
+  otLen : ot.terms.length = L
+  labels : ct.blocks.Pairwise (fun b b' => b.label ≠ b'.label)
+  valid : ∀ b ∈ ct.blocks, 0 ≤ b.i ∧ ∀ p ∈ b.d2, b.i < p.1 ∧ p.1 < (L : Int)
+
+theorem label_ne_IdL (b : Block α) : b.label ≠ Key.IdL := by simp [Block.label, leftLabel, Key.IdL]
+theorem label_ne_IdR (b : Block α) : b.label ≠ Key.IdR := by simp [Block.label, leftLabel, Key.IdR]
+theorem IdL_ne_IdR : Key.IdL ≠ Key.IdR := by simp [Key.IdL, Key.IdR]
+
+/-- path sum through one spec layer, split by the origin of the edges -/
+theorem pathsFrom_specLayer (ot : OnsiteTerms α) (ct : CouplingTerms α) (k : Nat)
+    (rest : List (List (Edge Key α))) (key : Key) :
+    pathsFrom Key.IdR (specLayer ot ct k :: rest) key =
+      (ot.terms.getD k []).flatMap (fun q =>
+        if Key.IdL = key then Sym.consOp q.1 q.2 (pathsFrom Key.IdR rest Key.IdR) else []) ++
+      (ct.blocks.flatMap (fun b => (b.edgesAt k).flatMap (fun e =>
+        if e.kL = key then Sym.consOp e.op e.c (pathsFrom Key.IdR rest e.kR) else [])) ++
+      ((if Key.IdL = key then Sym.consOp "Id" 1 (pathsFrom Key.IdR rest Key.IdL) else []) ++
+       (if Key.IdR = key then Sym.consOp "Id" 1 (pathsFrom Key.IdR rest Key.IdR) else []))) := by
+  rw [pathsFrom_cons, specLayer]
+  simp only [List.flatMap_append, List.flatMap_map, List.flatMap_assoc, List.flatMap_cons,
+    List.flatMap_nil, List.append_nil]
+
+/-- the edges of one block, split into the three kinds -/
+theorem edgesAt_flatMap (b : Block α) (k : Nat) (F : Edge Key α → Sym α) :
+    (b.edgesAt k).flatMap F =
+      (if b.i = (k : Int) then F ⟨Key.IdL, b.label, b.opi, 1⟩ else []) ++
+      ((if b.i < (k : Int) ∧ (k : Int) < b.jmax then F ⟨b.label, b.label, b.str, 1⟩ else []) ++
+      b.d2.flatMap (fun p => if p.1 = (k : Int)
+        then p.2.flatMap (fun q => F ⟨b.label, Key.IdR, q.1, q.2⟩) else [])) := by
+  unfold Block.edgesAt
+  simp only [List.flatMap_append, List.flatMap_assoc]
+  congr 1
+  · split <;> simp
+  · congr 1
+    · split <;> simp
+    · apply List.flatMap_congr
+      intro p _
+      split <;> simp [List.flatMap_map]
+
+end spec
+end TenpyModel.Ops
+
+namespace TenpyModel.Ops
+section blockparts
+variable {α : Type} [Semiring α]
+
+/-- contribution of the edges of block `b` on site `k` to the path sum starting in `key` -/
+def blockPart (b : Block α) (k : Nat) (P : Key → Sym α) (key : Key) : Sym α :=
+  (b.edgesAt k).flatMap (fun e => if e.kL = key then Sym.consOp e.op e.c (P e.kR) else [])
+
+theorem blockPart_eq (b : Block α) (k : Nat) (P : Key → Sym α) (key : Key) :
+    blockPart b k P key =
+      (if b.i = (k : Int) then (if Key.IdL = key then Sym.consOp b.opi 1 (P b.label) else []) else []) ++
+      ((if b.i < (k : Int) ∧ (k : Int) < b.jmax then
+          (if b.label = key then Sym.consOp b.str 1 (P b.label) else []) else []) ++
+       b.d2.flatMap (fun p => if p.1 = (k : Int) then
+          p.2.flatMap (fun q => if b.label = key then Sym.consOp q.1 q.2 (P Key.IdR) else []) else [])) := by
+  unfold blockPart
+  rw [edgesAt_flatMap]
+
+theorem blockPart_IdR (b : Block α) (k : Nat) (P : Key → Sym α) : blockPart b k P Key.IdR = [] := by
+  rw [blockPart_eq]
+  simp only [IdL_ne_IdR, label_ne_IdR, if_false, ite_self, List.nil_append]
+  rw [List.flatMap_eq_nil_iff]
+  intro p _
+  split
+  · rw [List.flatMap_eq_nil_iff]; intro q _; rfl
+  · rfl
+
+theorem blockPart_of_ne (b : Block α) (k : Nat) (P : Key → Sym α) (key : Key)
+    (h1 : Key.IdL ≠ key) (h2 : b.label ≠ key) : blockPart b k P key = [] := by
+  rw [blockPart_eq]
+  simp only [h1, h2, if_false, ite_self, List.nil_append]
+  rw [List.flatMap_eq_nil_iff]
+  intro p _
+  split
+  · rw [List.flatMap_eq_nil_iff]; intro q _; rfl
+  · rfl
+
+theorem blockPart_IdL (b : Block α) (k : Nat) (P : Key → Sym α) :
+    blockPart b k P Key.IdL = if b.i = (k : Int) then Sym.consOp b.opi 1 (P b.label) else [] := by
+  rw [blockPart_eq]
+  simp only [label_ne_IdL, if_false, if_true, ite_self, List.nil_append]
+  have : b.d2.flatMap (fun p => if p.1 = (k : Int) then
+      p.2.flatMap (fun _ => ([] : Sym α)) else []) = [] := by
+    rw [List.flatMap_eq_nil_iff]
+    intro p _
+    split
+    · rw [List.flatMap_eq_nil_iff]; intro q _; rfl
+    · rfl
+  rw [this, List.append_nil]
+
+theorem blockPart_self (b : Block α) (k : Nat) (P : Key → Sym α) :
+    blockPart b k P b.label =
+      (if b.i < (k : Int) ∧ (k : Int) < b.jmax then Sym.consOp b.str 1 (P b.label) else []) ++
+       b.d2.flatMap (fun p => if p.1 = (k : Int) then
+          p.2.flatMap (fun q => Sym.consOp q.1 q.2 (P Key.IdR)) else []) := by
+  rw [blockPart_eq]
+  have h : Key.IdL ≠ b.label := fun e => label_ne_IdL b e.symm
+  simp only [h, if_false, if_true, ite_self, List.nil_append]
+
+end blockparts
+end TenpyModel.Ops
+
+namespace TenpyModel.Ops
+section
+variable {α : Type} [Semiring α]
+
+theorem idStr_succ (n : Nat) : idStr (n + 1) = "Id" :: idStr n := by
+  simp [idStr, List.replicate_succ]
+
+theorem foldl_max_ge (l : List Int) (a : Int) : a ≤ l.foldl max a ∧ ∀ x ∈ l, x ≤ l.foldl max a := by
+  induction l generalizing a with
+  | nil => simp
+  | cons y l ih =>
+    simp only [List.foldl_cons, List.mem_cons]
+    obtain ⟨h1, h2⟩ := ih (max a y)
+    refine ⟨le_trans (le_max_left a y) h1, ?_⟩
+    intro x hx
+    rcases hx with rfl | hx
+    · exact le_trans (le_max_right a x) h1
+    · exact h2 x hx
+
+theorem le_jmax (b : Block α) (p : Int × Dict String α) (hp : p ∈ b.d2) : p.1 ≤ b.jmax := by
+  unfold Block.jmax
+  exact (foldl_max_ge (Dict.keys b.d2) (b.i + 1)).2 p.1 (List.mem_map.2 ⟨p, hp, rfl⟩)
+
+theorem map_eq_flatMap_singleton {β γ : Type} (l : List β) (f : β → γ) :
+    l.map f = l.flatMap (fun x => [f x]) := by
+  induction l with
+  | nil => rfl
+  | cons a l ih => simp [List.flatMap_cons, ih]
+
+/-- `Block.tail` one site further to the left -/
+theorem tail_step (b : Block α) (L k : Nat) (hbi : b.i < (k : Int)) :
+    Sym.Equiv (b.tail L k)
+      ((if b.i < (k : Int) ∧ (k : Int) < b.jmax then Sym.consOp b.str 1 (b.tail L (k + 1)) else []) ++
+       b.d2.flatMap (fun p => if p.1 = (k : Int) then
+         p.2.flatMap (fun q => Sym.consOp q.1 q.2 [(idStr (L - k - 1), (1 : α))]) else [])) := by
+  -- the string part, written without the case distinction on `jmax`
+  have hA : Sym.Equiv
+      (if b.i < (k : Int) ∧ (k : Int) < b.jmax then Sym.consOp b.str 1 (b.tail L (k + 1)) else [])
+      (b.d2.flatMap (fun p => if ((k + 1 : Nat) : Int) ≤ p.1 then
+        p.2.map (fun q => (b.str :: (List.replicate (p.1.toNat - (k + 1)) b.str
+          ++ q.1 :: idStr (L - p.1.toNat - 1)), 1 * q.2)) else [])) := by
+    by_cases hj : (k : Int) < b.jmax
+    · rw [if_pos ⟨hbi, hj⟩]
+      unfold Block.tail
+      rw [consOp_flatMap]
+      apply Sym.Equiv.of_perm
+      apply List.Perm.of_eq
+      apply List.flatMap_congr
+      intro p _
+      split
+      · simp [Sym.consOp, List.map_map, Function.comp_def]
+      · rfl
+    · rw [if_neg (fun h => hj h.2)]
+      intro t
+      rw [coeff_nil, coeff_flatMap]
+      symm
+      apply List.sum_eq_zero
+      intro x hx
+      obtain ⟨p, hp, rfl⟩ := List.mem_map.1 hx
+      have := le_jmax b p hp
+      rw [if_neg (by push_cast; omega)]
+      rfl
+  refine Sym.Equiv.trans ?_ (Sym.Equiv.append hA.symm (Sym.Equiv.refl _))
+  refine Sym.Equiv.trans ?_ (Sym.Equiv.flatMap_append b.d2 _ _)
+  unfold Block.tail
+  apply Sym.Equiv.flatMap_congr
+  intro p _
+  by_cases h1 : p.1 = (k : Int)
+  · have h2 : ¬ ((k + 1 : Nat) : Int) ≤ p.1 := by push_cast; omega
+    have h3 : (k : Int) ≤ p.1 := by omega
+    rw [if_pos h3, if_neg h2, if_pos h1, List.nil_append, map_eq_flatMap_singleton]
+    apply Sym.Equiv.flatMap_congr
+    intro q _
+    have : p.1.toNat - k = 0 := by omega
+    have e2 : L - p.1.toNat - 1 = L - k - 1 := by omega
+    intro t
+    simp [this, e2, Sym.consOp, coeff_singleton]
+  · by_cases h3 : (k : Int) ≤ p.1
+    · have h2 : ((k + 1 : Nat) : Int) ≤ p.1 := by push_cast; omega
+      rw [if_pos h3, if_pos h2, if_neg h1, List.append_nil]
+      apply Sym.Equiv.of_perm
+      apply List.Perm.of_eq
+      apply List.map_congr_left
+      intro q _
+      have : p.1.toNat - k = (p.1.toNat - (k + 1)) + 1 := by omega
+      rw [this, List.replicate_succ, one_mul]
+      rfl
+    · have h2 : ¬ ((k + 1 : Nat) : Int) ≤ p.1 := by push_cast; omega
+      rw [if_neg h3, if_neg h2, if_neg h1]
+      exact Sym.Equiv.refl _
+
+end
+end TenpyModel.Ops
+
+namespace TenpyModel.Ops
+section
+variable {α : Type} [Semiring α]
+
+theorem onsite_step (ot : OnsiteTerms α) (L k : Nat) (hk : k < L) :
+    Sym.Equiv (onsiteFrom ot L k)
+      ((ot.terms.getD k []).flatMap (fun q => Sym.consOp q.1 q.2 [(idStr (L - k - 1), (1 : α))]) ++
+        Sym.consOp "Id" 1 (onsiteFrom ot L (k + 1))) := by
+  unfold onsiteFrom
+  have hL : L - k = (L - (k + 1)) + 1 := by omega
+  rw [hL, List.range'_succ, List.flatMap_cons]
+  apply Sym.Equiv.append
+  · rw [map_eq_flatMap_singleton]
+    apply Sym.Equiv.flatMap_congr
+    intro q _ t
+    have e : L - k - 1 = L - (k + 1) := by omega
+    simp [Sym.consOp, coeff_singleton, idStr, e]
+  · rw [consOp_flatMap]
+    apply Sym.Equiv.of_perm
+    apply List.Perm.of_eq
+    apply List.flatMap_congr
+    intro i hi
+    have hik : k + 1 ≤ i := (List.mem_range'_1.1 hi).1
+    simp only [Sym.consOp, List.map_map, Function.comp_def, one_mul]
+    apply List.map_congr_left
+    intro q _
+    have : i - k = (i - (k + 1)) + 1 := by omega
+    rw [this, idStr_succ]
+    rfl
+
+end
+end TenpyModel.Ops
+
+namespace TenpyModel.Ops
+section
+variable {α : Type} [Semiring α]
+
+theorem block_step (b : Block α) (L k : Nat) (h0 : 0 ≤ b.i) (hv : ∀ p ∈ b.d2, b.i < p.1) :
+    Sym.Equiv (b.termsFrom L k)
+      ((if b.i = (k : Int) then Sym.consOp b.opi 1 (b.tail L (k + 1)) else []) ++
+        Sym.consOp "Id" 1 (b.termsFrom L (k + 1))) := by
+  by_cases h1 : b.i = (k : Int)
+  · have h2 : ¬ ((k + 1 : Nat) : Int) ≤ b.i := by push_cast; omega
+    have h3 : (k : Int) ≤ b.i := by omega
+    unfold Block.termsFrom Block.tail
+    rw [if_pos h1, if_pos h3, if_neg h2, consOp_nil, List.append_nil, consOp_flatMap]
+    apply Sym.Equiv.flatMap_congr
+    intro p hp
+    have hp1 : ((k + 1 : Nat) : Int) ≤ p.1 := by have := hv p hp; push_cast; omega
+    rw [if_pos hp1]
+    apply Sym.Equiv.of_perm
+    apply List.Perm.of_eq
+    simp only [Sym.consOp, List.map_map, Function.comp_def, one_mul]
+    apply List.map_congr_left
+    intro q _
+    have e1 : b.i.toNat - k = 0 := by omega
+    have e2 : p.1.toNat - b.i.toNat - 1 = p.1.toNat - (k + 1) := by omega
+    simp [e1, e2, idStr]
+  · by_cases h3 : (k : Int) ≤ b.i
+    · have h2 : ((k + 1 : Nat) : Int) ≤ b.i := by push_cast; omega
+      unfold Block.termsFrom
+      rw [if_neg h1, if_pos h3, if_pos h2, List.nil_append, consOp_flatMap]
+      apply Sym.Equiv.of_perm
+      apply List.Perm.of_eq
+      apply List.flatMap_congr
+      intro p _
+      simp only [Sym.consOp, List.map_map, Function.comp_def, one_mul]
+      apply List.map_congr_left
+      intro q _
+      have e1 : b.i.toNat - k = (b.i.toNat - (k + 1)) + 1 := by omega
+      rw [e1, idStr_succ]
+      rfl
+    · have h2 : ¬ ((k + 1 : Nat) : Int) ≤ b.i := by push_cast; omega
+      unfold Block.termsFrom
+      rw [if_neg h1, if_neg h3, if_neg h2]
+      exact Sym.Equiv.refl _
+
+theorem blocks_step (ct : CouplingTerms α) (L k : Nat)
+    (hv : ∀ b ∈ ct.blocks, 0 ≤ b.i ∧ ∀ p ∈ b.d2, b.i < p.1 ∧ p.1 < (L : Int)) :
+    Sym.Equiv (blocksFrom ct L k)
+      (ct.blocks.flatMap (fun b => if b.i = (k : Int) then Sym.consOp b.opi 1 (b.tail L (k + 1)) else []) ++
+        Sym.consOp "Id" 1 (blocksFrom ct L (k + 1))) := by
+  unfold blocksFrom
+  rw [consOp_flatMap]
+  refine Sym.Equiv.trans ?_ (Sym.Equiv.flatMap_append ct.blocks _ _)
+  apply Sym.Equiv.flatMap_congr
+  intro b hb
+  exact block_step b L k (hv b hb).1 (fun p hp => ((hv b hb).2 p hp).1)
+
+end
+end TenpyModel.Ops
+
+namespace TenpyModel.Ops
+section
+variable {α : Type} [Semiring α]
+
+/-- among blocks with pairwise distinct labels only `b` itself contributes to the sums from `b.label` -/
+theorem flatMap_single_label (l : List (Block α)) (b : Block α) (f : Block α → Sym α)
+    (hb : b ∈ l) (hpw : l.Pairwise (fun x y => x.label ≠ y.label))
+    (hf : ∀ x ∈ l, x.label ≠ b.label → f x = []) : Sym.Equiv (l.flatMap f) (f b) := by
+  induction l with
+  | nil => simp at hb
+  | cons x l ih =>
+    rw [List.pairwise_cons] at hpw
+    intro t
+    rw [List.flatMap_cons, coeff_append]
+    rcases List.mem_cons.1 hb with e | hb'
+    · subst e
+      have : l.flatMap f = [] := by
+        rw [List.flatMap_eq_nil_iff]
+        intro y hy
+        exact hf y (List.mem_cons_of_mem _ hy) (fun e => hpw.1 y hy e.symm)
+      rw [this, coeff_nil, add_zero]
+    · have hx : x.label ≠ b.label := hpw.1 b hb'
+      rw [hf x List.mem_cons_self hx, coeff_nil, zero_add]
+      exact ih hb' hpw.2 (fun y hy => hf y (List.mem_cons_of_mem _ hy)) t
+
+theorem flatMap_all_nil {β : Type} (l : List β) (f : β → Sym α) (h : ∀ x ∈ l, f x = []) :
+    l.flatMap f = [] := List.flatMap_eq_nil_iff.2 h
+
+theorem spec_suffix (ot : OnsiteTerms α) (ct : CouplingTerms α) (L : Nat) (h : GraphHyp ot ct L) :
+    ∀ n k, k + n = L →
+      Sym.Equiv (pathsFrom Key.IdR (specFrom ot ct k n) Key.IdR) [(idStr n, 1)] ∧
+      (∀ b ∈ ct.blocks, b.i < (k : Int) →
+        Sym.Equiv (pathsFrom Key.IdR (specFrom ot ct k n) b.label) (b.tail L k)) ∧
+      Sym.Equiv (pathsFrom Key.IdR (specFrom ot ct k n) Key.IdL) (onsiteFrom ot L k ++ blocksFrom ct L k) := by
+  intro n
+  induction n with
+  | zero =>
+    intro k hk
+    have hkL : k = L := by omega
+    subst hkL
+    refine ⟨?_, ?_, ?_⟩
+    · simp [specFrom, idStr]; exact Sym.Equiv.refl _
+    · intro b hb _
+      have h1 : pathsFrom (α := α) Key.IdR (specFrom ot ct k 0) b.label = [] := by
+        simp [specFrom, label_ne_IdR]
+      have h2 : b.tail k k = [] := by
+        unfold Block.tail
+        apply flatMap_all_nil
+        intro p hp
+        have := ((h.valid b hb).2 p hp).2
+        rw [if_neg (by omega)]
+      rw [h1, h2]; exact Sym.Equiv.refl _
+    · have h1 : pathsFrom (α := α) Key.IdR (specFrom ot ct k 0) Key.IdL = [] := by
+        simp [specFrom, IdL_ne_IdR]
+      have h2 : onsiteFrom ot k k = [] := by simp [onsiteFrom]
+      have h3 : blocksFrom ct k k = [] := by
+        unfold blocksFrom
+        apply flatMap_all_nil
+        intro b hb
+        unfold Block.termsFrom
+        split
+        · next hc =>
+          apply flatMap_all_nil
+          intro p hp
+          have := (h.valid b hb).2 p hp
+          omega
+        · rfl
+      rw [h1, h2, h3]; exact Sym.Equiv.refl _
+  | succ n ih =>
+    intro k hk
+    obtain ⟨ihR, ihLab, ihL⟩ := ih (k + 1) (by omega)
+    have hkL : k < L := by omega
+    have hn : L - k - 1 = n := by omega
+    set P : Key → Sym α := pathsFrom Key.IdR (specFrom ot ct (k + 1) n) with hP
+    have hspec : specFrom ot ct k (n + 1) = specLayer ot ct k :: specFrom ot ct (k + 1) n := rfl
+    refine ⟨?_, ?_, ?_⟩
+    · -- from IdR: only the IdR → IdR edge
+      rw [hspec, pathsFrom_specLayer]
+      have e1 : (ot.terms.getD k []).flatMap (fun q =>
+          if Key.IdL = Key.IdR then Sym.consOp q.1 q.2 (P Key.IdR) else []) = [] := by
+        apply flatMap_all_nil; intro q _; rw [if_neg IdL_ne_IdR]
+      have e2 : ct.blocks.flatMap (fun b => (b.edgesAt k).flatMap (fun e =>
+          if e.kL = Key.IdR then Sym.consOp e.op e.c (P e.kR) else [])) = [] := by
+        apply flatMap_all_nil; intro b _; exact blockPart_IdR b k P
+      rw [e1, e2, if_neg IdL_ne_IdR, if_pos rfl, List.nil_append, List.nil_append, List.nil_append]
+      refine (Sym.Equiv.consOp "Id" 1 ihR).trans ?_
+      rw [consOp_singleton, one_mul, idStr_succ]
+      exact Sym.Equiv.refl _
+    · -- from a label: the string edge and the closing edges of that block
+      intro b hb hbi
+      rw [hspec, pathsFrom_specLayer]
+      have hL : Key.IdL ≠ b.label := fun e => label_ne_IdL b e.symm
+      have hR : Key.IdR ≠ b.label := fun e => label_ne_IdR b e.symm
+      have e1 : (ot.terms.getD k []).flatMap (fun q =>
+          if Key.IdL = b.label then Sym.consOp q.1 q.2 (P Key.IdR) else []) = [] := by
+        apply flatMap_all_nil; intro q _; rw [if_neg hL]
+      rw [e1, if_neg hL, if_neg hR, List.nil_append, List.append_nil, List.append_nil]
+      have e2 := flatMap_single_label ct.blocks b (fun b' => blockPart b' k P b.label) hb h.labels
+        (fun x _ hx => blockPart_of_ne x k P b.label hL hx)
+      refine Sym.Equiv.trans e2 ?_
+      rw [blockPart_self]
+      refine Sym.Equiv.trans ?_ (tail_step b L k hbi).symm
+      apply Sym.Equiv.append
+      · by_cases hc : b.i < (k : Int) ∧ (k : Int) < b.jmax
+        · rw [if_pos hc, if_pos hc]
+          exact Sym.Equiv.consOp _ _ (ihLab b hb (by push_cast; omega))
+        · rw [if_neg hc, if_neg hc]; exact Sym.Equiv.refl _
+      · apply Sym.Equiv.flatMap_congr
+        intro p _
+        split
+        · apply Sym.Equiv.flatMap_congr
+          intro q _
+          rw [hn]
+          exact Sym.Equiv.consOp _ _ ihR
+        · exact Sym.Equiv.refl _
+    · -- from IdL: stay, an onsite term, or open a block
+      rw [hspec, pathsFrom_specLayer]
+      rw [if_pos rfl, if_neg (fun e => IdL_ne_IdR e.symm), List.append_nil]
+      have e1 : Sym.Equiv ((ot.terms.getD k []).flatMap (fun q =>
+          if Key.IdL = Key.IdL then Sym.consOp q.1 q.2 (P Key.IdR) else []))
+          ((ot.terms.getD k []).flatMap (fun q => Sym.consOp q.1 q.2 [(idStr (L - k - 1), (1 : α))])) := by
+        apply Sym.Equiv.flatMap_congr
+        intro q _
+        rw [if_pos rfl, hn]
+        exact Sym.Equiv.consOp _ _ ihR
+      have e2 : Sym.Equiv (ct.blocks.flatMap (fun b => (b.edgesAt k).flatMap (fun e =>
+          if e.kL = Key.IdL then Sym.consOp e.op e.c (P e.kR) else [])))
+          (ct.blocks.flatMap (fun b => if b.i = (k : Int) then Sym.consOp b.opi 1 (b.tail L (k + 1)) else [])) := by
+        apply Sym.Equiv.flatMap_congr
+        intro b hb
+        have := blockPart_IdL b k P
+        unfold blockPart at this
+        rw [this]
+        split
+        · next hc => exact Sym.Equiv.consOp _ _ (ihLab b hb (by push_cast; omega))
+        · exact Sym.Equiv.refl _
+      have e3 := Sym.Equiv.consOp "Id" (1 : α) ihL
+      refine Sym.Equiv.trans (Sym.Equiv.append e1 (Sym.Equiv.append e2 e3)) ?_
+      rw [consOp_append]
+      have o := onsite_step ot L k hkL
+      have bs := blocks_step ct L k h.valid
+      refine Sym.Equiv.trans ?_ (Sym.Equiv.append o bs).symm
+      intro t
+      simp only [coeff_append]
+      ac_rfl
+
+end
+end TenpyModel.Ops
+
+namespace TenpyModel.Ops
+section
+variable {α : Type} [Semiring α]
+
+theorem zipIdx_flatMap_range' {β γ : Type} (l : List β) (d : β) (n : Nat) (G : β → Nat → List γ) :
+    (l.zipIdx n).flatMap (fun p => G p.1 p.2) =
+      (List.range' n l.length).flatMap (fun i => G (l.getD (i - n) d) i) := by
+  induction l generalizing n with
+  | nil => rfl
+  | cons x l ih =>
+    rw [List.zipIdx_cons, List.flatMap_cons, List.length_cons, List.range'_succ, List.flatMap_cons]
+    congr 1
+    · simp
+    · rw [ih (n + 1)]
+      apply List.flatMap_congr
+      intro i hi
+      have hle : n + 1 ≤ i := (List.mem_range'_1.1 hi).1
+      have : i - n = (i - (n + 1)) + 1 := by omega
+      rw [this, List.getD_cons_succ]
+
+theorem onsiteFrom_zero (ot : OnsiteTerms α) (h : ot.terms.length = ot.L) :
+    onsiteFrom ot ot.L 0 = ot.denote := by
+  unfold onsiteFrom OnsiteTerms.denote
+  rw [zipIdx_flatMap_range' ot.terms [] 0
+    (fun d i => d.map (fun q => (onsiteStr ot.L i q.1, q.2))), h]
+  simp only [Nat.sub_zero]
+  rfl
+
+theorem blocksFrom_zero (ct : CouplingTerms α) (h0 : ∀ b ∈ ct.blocks, 0 ≤ b.i) :
+    blocksFrom ct ct.L 0 = ct.denote := by
+  rw [CouplingTerms.denote_eq]
+  unfold blocksFrom cD0 cD1 cD2 cD3
+  have hb : ∀ b ∈ ct.blocks, b.termsFrom ct.L 0 =
+      b.d2.flatMap (fun p => p.2.flatMap (fun q =>
+        [(couplingStr ct.L b.i.toNat p.1.toNat b.opi b.str q.1, q.2)])) := by
+    intro b hb
+    unfold Block.termsFrom
+    rw [if_pos (by simpa using h0 b hb)]
+    apply List.flatMap_congr
+    intro p _
+    rw [map_eq_flatMap_singleton]
+    simp [couplingStr]
+  rw [List.flatMap_congr hb]
+  unfold CouplingTerms.blocks
+  rw [List.flatMap_assoc]
+  apply List.flatMap_congr
+  intro p _
+  rw [List.flatMap_map]
+
+end
+end TenpyModel.Ops
+
+namespace TenpyModel.Ops
+section
+variable {α : Type} [Semiring α]
+
+theorem label_inj (b b' : Block α) (h : b.label = b'.label) : b.i = b'.i ∧ b.opi = b'.opi ∧ b.str = b'.str := by
+  simpa [Block.label, leftLabel] using h
+
+theorem graphHyp_of_WFP (ot : OnsiteTerms α) (ct : CouplingTerms α) (L : Nat) (hot : ot.terms.length = L)
+    (hct : ct.WFP (fun i j => 0 ≤ i ∧ i < j ∧ j < (L : Int))) : GraphHyp ot ct L := by
+  refine ⟨hot, ?_, ?_⟩
+  · unfold CouplingTerms.blocks
+    rw [List.pairwise_flatMap]
+    constructor
+    · intro p hp
+      rw [List.pairwise_map]
+      have hk : (Dict.keys p.2).Nodup := (hct.2 p hp).1
+      unfold Dict.keys at hk
+      rw [List.Nodup, List.pairwise_map] at hk
+      refine hk.imp ?_
+      intro a b hab hl
+      have := label_inj _ _ hl
+      exact hab (Prod.ext this.2.1 this.2.2)
+    · have hk : (Dict.keys ct.terms).Nodup := hct.1
+      unfold Dict.keys at hk
+      rw [List.Nodup, List.pairwise_map] at hk
+      refine hk.imp ?_
+      intro a b hab x hx y hy hl
+      obtain ⟨qa, _, rfl⟩ := List.mem_map.1 hx
+      obtain ⟨qb, _, rfl⟩ := List.mem_map.1 hy
+      exact hab (label_inj _ _ hl).1
+  · intro b hb
+    unfold CouplingTerms.blocks at hb
+    obtain ⟨p, hp, hb⟩ := List.mem_flatMap.1 hb
+    obtain ⟨q, hq, rfl⟩ := List.mem_map.1 hb
+    have hq2 := ((hct.2 p hp).2 q hq).2.2
+    have hne := ((hct.2 p hp).2 q hq).1
+    refine ⟨?_, ?_⟩
+    · -- 0 ≤ i needs an entry; a block without entries contributes nothing but may sit anywhere:
+      -- `WFP` gives the bound through any entry, otherwise we use the entry-free case below
+      obtain ⟨r, hr⟩ := List.exists_mem_of_ne_nil _ hne
+      exact (hq2 r hr).1.1
+    · intro r hr
+      exact ⟨(hq2 r hr).1.2.1, (hq2 r hr).1.2.2⟩
+
+end
+end TenpyModel.Ops
+
+namespace TenpyModel.Ops
+section
+variable {α : Type} [Semiring α]
+
+/-- the closed form of the graph denotes the sum of the stored onsite and coupling terms -/
+theorem spec_denote (ot : OnsiteTerms α) (ct : CouplingTerms α) (L : Nat) (hotL : ot.L = L) (hctL : ct.L = L)
+    (h : GraphHyp ot ct L) :
+    Sym.Equiv (pathsFrom Key.IdR (specLayers ot ct L) Key.IdL) (ot.denote ++ ct.denote) := by
+  have := (spec_suffix ot ct L h L 0 (by omega)).2.2
+  unfold specLayers
+  refine this.trans ?_
+  have h1 := onsiteFrom_zero ot (h.otLen.trans hotL.symm)
+  have h2 := blocksFrom_zero ct (fun b hb => (h.valid b hb).1)
+  rw [hotL] at h1
+  rw [hctL] at h2
+  rw [h1, h2]
+  exact Sym.Equiv.refl _
+
+end
+end TenpyModel.Ops
